@@ -8,6 +8,7 @@ from . import names as N
 
 LADDER = [0, 1, 2, 3, 4, 5, 8, 12]
 WORDS = ["x", "dm", "y_1", "beta", "CKM", "on", "off", "alpha", "-x", "+y", "q2", "FF", "w'"]
+EXT_LABELS = ["VSS1", "SLL0", "PHSP3", "HELAMP2", "ISGW22", "PHSP_x", "SVS9", "HQET2a", "VSS_BMIX2", "PHSP0", "SLN_1", "TAUOLA5"]
 FLOATLIKE = ["inf", "nan", "-Infinity", "+nan", "NaN", "Inf", "-inf", "infinity", "e5", "E-3"]   # words, not numeric literals of the language
 
 
@@ -49,6 +50,11 @@ class Gen:
             return self.rng.choice(list(extra))
         if r < 0.7:
             return self.rng.choice(self.real)
+        if r < 0.74:
+            # a label that continues a published model name with digits, an underscore or letters: one word of the language all the same
+            w = self.rng.choice(EXT_LABELS)
+            if L.label_ok(w, self.allmodels):
+                return w
         return self.label()
 
     def next_model(self):
